@@ -58,12 +58,15 @@ int main(int argc, char **argv) {
     auto elem = rc::gen::resize(100, rc::gen::oneOf(rc::gen::inRange<uint32_t>(0, 4), rc::gen::inRange<uint32_t>(0, 64),
                                                    rc::gen::inRange<uint32_t>(0, 4096), rc::gen::arbitrary<uint32_t>()));
     // a fixed-length prefix (so that the structural choices of a case are rarely cut short) + a size-scaled tail
+    long shrink_max = 500; if (const char *e = getenv("VERIF_SHRINK_MAX")) shrink_max = atol(e);
     int prefix = 24; if (const char *e = getenv("VERIF_TAPE_PREFIX")) prefix = atoi(e);
     auto headgen = rc::gen::container<std::vector<uint32_t>>((std::size_t)prefix, elem);
     auto tailgen = rc::gen::scale((double)scale, rc::gen::container<std::vector<uint32_t>>(elem));
     bool ok = rc::check(prop_id(), [&]() {
       std::vector<uint32_t> w = *headgen;
       { std::vector<uint32_t> tl = *tailgen; w.insert(w.end(), tl.begin(), tl.end()); }
+      // bounded shrinking: once the probe budget is spent every further shrink candidate "passes" at once, which ends the search
+      if (g_failed_once && g_shrink_evals >= shrink_max) return;
       save_current(w);
       Tape t(w); Report local;
       Report *rp = g_failed_once ? &local : &g_rep;   // cases run while shrinking are not counted as coverage
